@@ -163,12 +163,16 @@ class Fn:
                                                     # source file cannot break the generated module of an unrelated property)
 
 
-MODULE_STRUCTS = {"AlgoDsu": ["DisjointSetUnion"], "AlgoPopulation": ["ChainTrees"]}
+MODULE_STRUCTS = {"AlgoDsu": ["DisjointSetUnion"], "AlgoPopulation": ["ChainTrees", "LazyLoadingTrees", "NestTrees"]}
 MODULE_IMPORTS = {}
 
 STRUCTS = {
     "DisjointSetUnion": {"element_parent": "List Int", "rank": "List Int"},
-    "ChainTrees": {"lens": "List Int", "cumsum": "List Int"},
+    # members of a chain / the wrapped container of a nest are lists of tree identifiers (what indexing them returns)
+    "ChainTrees": {"trees": "List (List Int)", "cumsum": "List Int"},
+    # `swcs` are file identifiers; `trees[i]` is None or the identifier of the tree read from file i
+    "LazyLoadingTrees": {"swcs": "List Int", "trees": "List (Option Int)"},
+    "NestTrees": {"trees": "List Int", "idx": "List Int"},
 }
 
 
@@ -187,7 +191,7 @@ class FnTr:
         cbb = " ".join(b for b, _, _ in spec.callbacks.values())
         tpsi = " ".join(f"{{{t} : Type}} [Inhabited {t}]" for t in spec.tparams)
         self.binders_nofuel = f"{tpsi} {cbb}".strip()
-        self.bargs_nofuel = " ".join(list(spec.callbacks.keys()))
+        self.bargs_nofuel = " ".join(b.split()[0].strip("(") for b, _, _ in spec.callbacks.values())
         tapp = (" " + " ".join(spec.tparams)) if spec.tparams else ""
         self.Vt = f"({spec.lean}.V{tapp})" if spec.tparams else f"{spec.lean}.V"
 
@@ -489,7 +493,22 @@ class FnTr:
         f = ast.unparse(e.func)
         args = e.args
         kw = {k.arg: k.value for k in e.keywords}
+        # --- `len(self)` of a translated class
+        if f == "len" and len(args) == 1 and f"{ast.unparse(e)}#{self.spec.cls}" in self.table:
+            callee = self.table[f"{ast.unparse(e)}#{self.spec.cls}"]
+            n = self.bindname()
+            nm = args[0].id
+            return [f"Py.bind ({callee.lean} v.{lname(nm)}) fun {n} =>"], n, parse_type(callee.ret)
         # --- callbacks (state-passing): cb(a, b) -> let r := cb v.cbs a b; v := {v with cbs := r.1}; r.2
+        if f in self.spec.callbacks:
+            lean_cb, nargs, rty = self.spec.callbacks[f][0].split()[0].strip("("), self.spec.callbacks[f][1], self.spec.callbacks[f][2]
+            steps, codes = [], []
+            for x in args[:nargs]:
+                s0, c, _ = self.tr(x)
+                steps += s0; codes.append(c)
+            n = self.bindname()
+            steps.append(f"let {n} := {lean_cb} v.cbs {' '.join(codes)}; let v := {{ v with cbs := {n}.1 }};")
+            return steps, f"{n}.2", parse_type(rty)
         if isinstance(e.func, ast.Name) and e.func.id in self.spec.callbacks:
             _, nargs, rty = self.spec.callbacks[e.func.id]
             steps, codes = [], []
@@ -519,6 +538,13 @@ class FnTr:
             fuel = "fuel " if callee.fuel else ""
             if callee.fuel and not self.spec.fuel:
                 raise Untranslatable(f"{self.spec.lean} calls {callee.lean} which needs fuel")
+            if callee.callbacks:
+                # the callee shares this function's callbacks and their state
+                if callee.callbacks != self.spec.callbacks or callee.out != ["self"] or recv is None:
+                    raise Untranslatable(f"{self.spec.lean}: call of {callee.lean} with different callbacks")
+                call = f"{callee.lean} {self.bargs_nofuel} {fuel}{' '.join(codes)} v.cbs"
+                steps.append(f"Py.bind ({call}) fun {n} => let v := {{ v with {lname(recv.id)} := {n}.1, cbs := {n}.2.1 }};")
+                return steps, f"{n}.2.2", parse_type(callee.ret)
             call = f"{callee.lean} {fuel}{' '.join(codes)}"
             if callee.out:
                 if callee.out != ["self"] or recv is None:
@@ -590,6 +616,12 @@ class FnTr:
             s0, c, t = self.tr(args[0].args[0])
             if t == ("List", "Int"):
                 return s0, f"(Py.uniqueCount {c})", "Int"
+        if f == "np.cumsum" and len(args) == 1:
+            s0, c, t = self.tr(args[0])
+            if t == ("List", "Int"):
+                return s0, f"(Py.cumsum {c})", ("List", "Int")
+        if f == "list" and len(args) == 1:
+            return self.tr(args[0], want)
         if f == "np.unique" and len(args) == 1:
             raise Untranslatable("np.unique outside len(...)")
         if f == "np.all" and len(args) == 1:
@@ -772,6 +804,9 @@ class FnTr:
     def s_Break(self, s):
         return f"(fun (v : {self.Vt}) => .brk v)"
 
+    def s_Raise(self, s):
+        return f"(fun (v : {self.Vt}) => .err)"
+
     def s_Assert(self, s):
         st, c, t = self.tr(s.test)
         return self.chain(st, f"if {self.as_bool(c, t)} then .next v else .err")
@@ -924,7 +959,7 @@ class FnTr:
             lines.append(f"/-- {doc} -/")
             lines.append(f"def {sp.lean} {tpsi} {cbb} {fuel}{params} : Option {out_t} :=")
             fa = "fuel " if sp.fuel else ""
-            cba = " ".join(sp.callbacks.keys())
+            cba = self.bargs_nofuel
             lines.append(f"  (Py.finish {dflt} ({sp.lean}.body {cba} {fa}{{ (default : {Vt}) with {init} }})).map fun r => {out_c}")
         return "\n".join(lines) + "\n"
 
@@ -1002,6 +1037,28 @@ spec(lean="get_dsu", module="AlgoCheckers", file="swcgeom/core/swc_utils/base.py
      subst={"df[names.pid]": ("v.pids", "List Int"), "df[names.id]": ("v.ids", "List Int"), "len(df)": ("(Py.len v.ids)", "Int")},
      skip_stmts=["names = get_names(names)"],
      doc="`swcgeom/core/swc_utils/base.py::get_dsu` (the two DataFrame columns are the parameters `ids`, `pids`)")
+
+
+spec(lean="pop_get_idx", module="AlgoPopulation", file="swcgeom/core/population.py", func="_get_idx",
+     params=["key", "length"], vars={"key": "Int", "length": "Int"}, ret="Int", callee=["_get_idx"])
+spec(lean="chain_len", module="AlgoPopulation", file="swcgeom/core/population.py", cls="ChainTrees", func="__len__",
+     params=["self"], vars={"self": "ChainTrees"}, ret="Int", callee=["len(self)#ChainTrees"])
+spec(lean="chain_init", module="AlgoPopulation", file="swcgeom/core/population.py", cls="ChainTrees", func="__init__",
+     params=["self", "trees"], vars={"self": "ChainTrees", "trees": "List (List Int)"}, ret="Unit", out=["self"],
+     skip_stmts=["super().__init__()"])
+spec(lean="chain_getitem", module="AlgoPopulation", file="swcgeom/core/population.py", cls="ChainTrees", func="__getitem__",
+     params=["self", "key"], vars={"self": "ChainTrees", "key": "Int", "i": "Int", "j": "Int", "idx": "Int", "mid": "Int"},
+     ret="Int", fuel=True)
+spec(lean="nest_getitem", module="AlgoPopulation", file="swcgeom/core/population.py", cls="NestTrees", func="__getitem__",
+     params=["self", "key"], vars={"self": "NestTrees", "key": "Int"}, ret="Int")
+spec(lean="lazy_len", module="AlgoPopulation", file="swcgeom/core/population.py", cls="LazyLoadingTrees", func="__len__",
+     params=["self"], vars={"self": "LazyLoadingTrees"}, ret="Int", callee=["len(self)#LazyLoadingTrees"])
+spec(lean="lazy_load", module="AlgoPopulation", file="swcgeom/core/population.py", cls="LazyLoadingTrees", func="load",
+     params=["self", "key"], vars={"self": "LazyLoadingTrees", "key": "Int"}, ret="Unit", out=["self"], tparams=["σ"],
+     callbacks={"Tree.from_swc": ("(read : σ → Int → σ × Int)", 1, "Int")}, callee=["self.load"])
+spec(lean="lazy_getitem", module="AlgoPopulation", file="swcgeom/core/population.py", cls="LazyLoadingTrees", func="__getitem__",
+     params=["self", "key"], vars={"self": "LazyLoadingTrees", "key": "Int", "idx": "Int"}, ret="Option Int", out=["self"], tparams=["σ"],
+     callbacks={"Tree.from_swc": ("(read : σ → Int → σ × Int)", 1, "Int")})
 
 
 def regenerate(modules=None):
